@@ -152,6 +152,12 @@ def gen_cases(ctx):
                 enc = 'utf-8' if rng.random() < 0.8 else 'binary'
                 hdr = rng.random() < 0.3
                 cases.append(dict(c, kind='all', data=data, encoding=enc, header=hdr, modes=['from', 'push']))
+    if ctx.tier == 'thorough':      # one byte more, sampled
+        for _ in range(6000):
+            data = [ord(rng.choice(ALPHA)) for _ in range(n_full + 1)]
+            for c in cfgs:
+                cases.append(dict(c, kind='all', data=data, encoding='utf-8' if rng.random() < 0.8 else 'binary', header=rng.random() < 0.3,
+                                  modes=['from', 'push']))
     # UTF-8 samples with multi-byte characters and BOM, both encodings, all configurations
     samples = list(UTF8_SAMPLES)
     pool = ['a', '\u00e9', '\u20ac', '\U0001d11e', '\n', '\r', '\r\n', '"', ',', '#', '\ufeff']
@@ -268,7 +274,7 @@ def run(ctx):
     ctx.exhaustive = True
     rng = ctx.rng
     n_full = 5 if ctx.tier == 'quick' else 6
-    ctx.rule = ('every input over {a " , LF CR #} up to %d bytes (length %d: %s) x policies {simple, quoted, quoted_rfc, monocolumn} x comment prefix {None,#}, '
+    ctx.rule = ('every input over {a " , LF CR #} up to %d bytes (length %d: %s; thorough: + a sample one byte longer) x policies {simple, quoted, quoted_rfc, monocolumn} x comment prefix {None,#}, '
                 'each on ALL 2^(n-1) byte-level partitions x delivery modes {one chunk per tick, back to back} + bulk path; UTF-8 samples with 2-/3-/4-byte '
                 'characters and BOM on all partitions; invalid/truncated UTF-8; sampled partitions with empty chunks and random continuation schedules against the '
                 'stream-level model; a 200 KB file through fs.createReadStream. non-trivial = distinct (input, cfg) containing a line break, a quote or a '
@@ -320,6 +326,30 @@ def run(ctx):
         sched = [[p, rng.random() < 0.5] for p in pieces]
         one_args.append(lib.enc([cfg_sx(c1), p12.split_sx(c1, tab_of.get(id(c), [])), rng.random() < 0.5, sched]))
         dec_args.append(lib.enc(pieces))
+    # runs with empty chunks leave the specification (C20_empty_chunk_refuted): the faithful model then asks the splitter about rows
+    # that are not rows of the text; extend the tables with the rows of the lines the stream model hands over
+    m_dec0 = lib.run_model(220, dec_args)
+    ext = [i for i, c1 in enumerate(ones) if p12.needs_table(c1) and any(len(p) == 0 for p in c1['pieces']) and m_dec0[i]]
+    if ext:
+        lns = lib.run_model(213, [lib.enc([lib.Raw(lib.enc(x)) for x in m_dec0[i][0]]) for i in ext])
+        rws = lib.run_model(205, [lib.enc([cfg_sx(ones[i]), lib.Raw(lib.enc(l))]) for i, l in zip(ext, lns)])
+        want = {}
+        for i, r in zip(ext, rws):
+            for x in r[0]:
+                want.setdefault((ones[i]['policy'], ones[i]['delim']), set()).add(lib.dec_str(x))
+        sc = [{'kind': 'split', 'policy': pol, 'delim': dl, 'lines': sorted(ls)} for (pol, dl), ls in sorted(want.items())]
+        orc = {}
+        for c_, r_ in zip(sc, lib.run_impl_js('c20', sc)):
+            for l, fw in zip(c_['lines'], r_):
+                orc[(c_['policy'], c_['delim'], l)] = (fw[0], bool(fw[1]))
+        for i, r in zip(ext, rws):
+            c1 = ones[i]
+            tab = dict(tab_of.get(id(srcs[i]), []))
+            for x in r[0]:
+                l = lib.dec_str(x)
+                tab[l] = orc[(c1['policy'], c1['delim'], l)]
+            sched = [[p_, rng.random() < 0.5] for p_ in c1['pieces']]
+            one_args[i] = lib.enc([cfg_sx(c1), p12.split_sx(c1, sorted(tab.items())), rng.random() < 0.5, sched])
     m_one = lib.run_model(211, one_args)
     e_one = [dec_jresult(m) for m in m_one]
     g_one = lib.run_impl_js('c20', ones)
@@ -337,7 +367,7 @@ def run(ctx):
             ndiff += 1
     ctx.stat('stream_model_runs_with_empty_chunk_differing_from_bulk', ndiff)
     # decode_streaming (model) vs python's incremental decoder, chunk by chunk
-    m_dec = lib.run_model(220, dec_args)
+    m_dec = m_dec0
     import codecs
     for c1, m in zip(ones, m_dec):
         dec = codecs.getincrementaldecoder('utf-8')('strict')
@@ -377,6 +407,24 @@ def summary(o):
     return repr(o)[:300]
 
 
+def stream_table(c1, base):
+    """split table for one stream run: rows of the text plus the rows of the lines the stream model hands over (they differ
+    only when empty chunks make the reader leave the specification)"""
+    if not p12.needs_table(c1):
+        return base
+    d = lib.run_model(220, [lib.enc(c1['pieces'])])[0]
+    if not d:
+        return base
+    lns = lib.run_model(213, [lib.enc(d[0])])[0]
+    rws = lib.run_model(205, [lib.enc([cfg_sx(c1), lns])])[0]
+    ls = sorted(set(lib.dec_str(x) for x in rws[0]))
+    res = lib.run_impl_js('c20', [{'kind': 'split', 'policy': c1['policy'], 'delim': c1['delim'], 'lines': ls}])[0]
+    tab = dict(base)
+    for l, fw in zip(ls, res):
+        tab[l] = (fw[0], bool(fw[1]))
+    return sorted(tab.items())
+
+
 def replay(ctx, case):
     kind = case.get('kind')
     if kind == 'all':
@@ -395,7 +443,7 @@ def replay(ctx, case):
         ctx.count(1)
         if kind == 'one':
             sched = [[p, True] for p in case['pieces']]
-            m = lib.run_model(211, [lib.enc([cfg_sx(case), p12.split_sx(case, tabs[0]), True, sched])])
+            m = lib.run_model(211, [lib.enc([cfg_sx(case), p12.split_sx(case, stream_table(case, tabs[0])), True, sched])])
             ctx.compare([case], [dec_jresult(m[0])], got, THEOREM + ' [stream-level model run_js_stream]', describe=describe)
             if any(len(p) == 0 for p in case['pieces']) or decoded_text(c0) is None:
                 return          # empty chunks / invalid input: outside the property's quantifier, only the faithful model applies
